@@ -74,7 +74,8 @@ TraceNext ==
                               /\ spans' = [h \in Handles |-> NoSpan] /\ entered' = << >> /\ scope' = << >>
                               /\ wrap' = r.wrap /\ wx' = r.x /\ fhint' = r.hint
                               /\ UNCHANGED <<bad, tvse>>
-         [] r.ev = "op"    -> /\ bad' = (IF mode = "tvse" \/ OpOk(r) THEN bad ELSE Append(bad, l + 1))
+         \* (a filter built one directive at a time answers exactly as the parsed one: the directive set decides, not its history)
+         [] r.ev = "op"    -> /\ bad' = (IF mode = "tvse" \/ (OpOk(r) /\ ("same_as_parsed" \in DOMAIN r => r.same_as_parsed)) THEN bad ELSE Append(bad, l + 1))
                               /\ tvse' = (IF mode = "tvse" /\ ~OpOk(r) THEN Append(tvse, l + 1) ELSE tvse)
                               /\ Step(r)
                               /\ mode' = mode /\ UNCHANGED <<wrap, wx, fhint>>
